@@ -760,7 +760,7 @@ func TestMC_C06(t *testing.T) {
 	for _, ty := range []int{0, 1} {
 		for _, am := range []int{0, 3} {
 			for _, keys := range verifmc.Pick(c, []int{1}, []int{0, 2}) {
-				for _, mask := range verifmc.Pick(c, []int{1}, []int{0, 1}) {
+				for _, mask := range []int{1} {
 					for _, sc := range []int{0, 1} {
 						for _, wd := range []int{0, 1, 2} {
 							reduced = append(reduced, c06OutID(ty, am, keys, mask, sc, wd))
@@ -777,7 +777,7 @@ func TestMC_C06(t *testing.T) {
 	deepInputs := verifmc.Pick(c, 1, 1+c06InputKinds) // thorough: every input list of length <= 1
 	authFrameOutputs := []int{c06OutID(0, 1, 1, 1, 1, 0), c06OutID(1, 4, 2, 0, 0, 2), c06OutID(0, 0, 0, 0, 0, 1), c06OutID(1, 2, 1, 1, 1, 1)}
 	authIn := verifmc.Pick(c, 1+c06InputKinds, c06ListCount(c06InputKinds, 2))
-	authOut := verifmc.Pick(c, 3, c06ListCount(len(authFrameOutputs), 2))
+	authOut := verifmc.Pick(c, 3, c06ListCount(len(authFrameOutputs), 1))
 	leaves := c06Leaves()
 
 	st.prods = []*c06Product{
